@@ -207,6 +207,69 @@ def imag_copy_rule(chk, src):
     return n
 
 
+def evolve_exact_rule(chk, src, rule):
+    """abstract run of Mps.evolve_exact and MpDm.evolve_exact (helper methods from source) with the propagator constructor and `apply` as recorders and a symbolic step, offset
+    and prefactor: the propagator is built for the state's own model with x = -i dt and shift = -offset in the space that was asked for; it is applied from the documented
+    side (operator on a state, density operator on the propagator) with canonicalisation; the object returned is the one `apply` produced, its prefactor multiplied by a
+    phase so that the offset cancels: x (H + shift) + log(phase) = -i dt H; the input is left alone; both classes use the same x, shift and phase."""
+    from ..syminterp import SymInterp, Sym, Blob, OpenSym
+    from .chain_rules import class_resolver
+    dt, off, H, c0 = sp.Symbol("dt"), sp.Symbol("offset"), sp.Symbol("H"), sp.Symbol("c0")
+    resolve = class_resolver(src, {"Mps": MPS, "MpDm": MPDM})
+
+    def ns(x):
+        return sp.nsimplify(sp.sympify(x), rational=True)
+    red = {}
+    for rel, qual, cname in ((MPS, "Mps.evolve_exact", "Mps"), (MPDM, "MpDm.evolve_exact", "MpDm")):
+        fi = src.func(rel, qual)
+        rec = {"prop": [], "apply": []}
+
+        def exact_propagator(model, x, space="GS", shift=0.0, rec=rec):
+            rec["prop"].append({"model": model, "x": x, "space": space, "shift": shift})
+            pr = Sym("propagator")
+            pr.apply = lambda mp, canonicalise=False, pr=pr: rec["apply"].append(("propagator.apply(state)", mp, canonicalise)) or Sym("result", coeff=c0, tag="result")
+            return pr
+        me = Sym("state", coeff=sp.Symbol("c_in"), model=Sym("model of the state"))
+        me._cls = cname
+        me.apply = lambda op, canonicalise=False: rec["apply"].append(("state.apply(propagator)", op, canonicalise)) or Sym("result", coeff=c0, tag="result")
+        npx = OpenSym("np", make=lambda t: Blob(t), exp=lambda v: sp.exp(ns(v)))
+        it = SymInterp(src, resolve, {"np": npx, "xp": npx, "Mpo": Sym("Mpo", exact_propagator=exact_propagator), "logger": Blob("logger")})
+        it.max_depth = 8
+        h = Sym("h_mpo", offset=off)
+        res = it.call_function(fi, [me, h, dt, "the space asked for"])
+        probs = []
+        if len(rec["prop"]) != 1:
+            probs.append(f"{len(rec['prop'])} propagators built")
+        else:
+            a = rec["prop"][0]
+            x, sh = ns(a["x"]), ns(a["shift"])
+            if a["model"] is not me.model:
+                probs.append("the propagator is not built for the state's model")
+            if a["space"] != "the space asked for":
+                probs.append(f"space {a['space']!r}")
+            chk.ob(rule, f"{qual}: x = -i dt", sp.simplify(x + sp.I * dt) == 0, fi.where, str(x), "-I*dt", line=fi.node.lineno)
+            phase = sp.simplify(getattr(res, "coeff", sp.nan) / c0) if getattr(res, "tag", None) == "result" else None
+            if phase is None:
+                total = None
+            else:
+                lg = sp.expand_log(sp.log(phase), force=True)
+                total = sp.expand(x * (H + sh) + lg)
+            chk.ob(rule, f"{qual}: offset cancels, total exponent = -i dt H", total is not None and sp.simplify(total + sp.I * dt * H) == 0, fi.where, str(total), "-I*dt*H", line=fi.node.lineno,
+                   detail=f"{qual}: propagator exp(x(H+shift)) times the phase does not equal exp(-i dt H): the energy shift is not compensated (only visible for non-zero offsets)")
+            red[qual] = (x, sh, phase)
+        ret_ok = getattr(res, "tag", None) == "result" and me.coeff == sp.Symbol("c_in")
+        chk.ob(rule, f"{qual}: phase attached to the returned state", ret_ok, fi.where, {"returned": getattr(res, "_name", res), "input prefactor": str(me.coeff)}, "the object produced by apply; input untouched",
+               line=fi.node.lineno, detail=f"{qual} must return the propagated object with the phase on it and leave the input (prefactor included) unchanged")
+        want = "propagator.apply(state)" if cname == "Mps" else "state.apply(propagator)"
+        ok_app = len(rec["apply"]) == 1 and rec["apply"][0][0] == want and rec["apply"][0][2] is True and \
+            (rec["apply"][0][1] is me if cname == "Mps" else getattr(rec["apply"][0][1], "_name", None) == "propagator")
+        chk.ob(rule, f"{qual}: propagator applied from the documented side", ok_app and not probs, fi.where, probs or [(a_[0], a_[2]) for a_ in rec["apply"]], want + ", canonicalise=True", line=fi.node.lineno)
+    if len(red) == 2:
+        a1, a2 = red["Mps.evolve_exact"], red["MpDm.evolve_exact"]
+        same = sp.simplify(a1[0] - a2[0]) == 0 and sp.simplify(a1[1] - a2[1]) == 0 and a1[2] is not None and a2[2] is not None and sp.simplify(a1[2] - a2[2]) == 0
+        chk.ob(rule, "siblings agree (x, shift, phase)", same, f"{MPS}::Mps.evolve_exact", {"Mps": [str(v) for v in a1], "MpDm": [str(v) for v in a2]}, "identical")
+
+
 def run(chk):
     src = chk.src
     chk.explanation = (
@@ -231,24 +294,8 @@ def run(chk):
     chk.rule("imag-normalise", "evolve(): complex (imaginary) step => state and prefactor normalised; real step => tensors only (abstract run of both dispatchers)", 8)
     chk.rule("purification", "MpDm.from_mps embeds the state diagonally; ancilla carries no quantum number; operator sites carry (q, -q); tree auxiliary space", 6)
     auxiliary_space_rule(chk, src)
-    dt, off, H = sp.Symbol("dt"), sp.Symbol("offset"), sp.Symbol("H")
-    red = {}
-    for rel, qual in ((MPS, "Mps.evolve_exact"), (MPDM, "MpDm.evolve_exact")):
-        fi = src.func(rel, qual)
-        args, target, exponent, ret, app, line = reduce_evolve_exact(fi)
-        red[qual] = (args, target, exponent, ret, app)
-        chk.ob("evolve-exact-siblings", f"{qual}: x = -i dt", sp.simplify(args["x"] + sp.I * dt) == 0, fi.where, str(args["x"]), "-I*dt", line=line)
-        total = sp.expand(args["x"] * (H + args["shift"]) + exponent)
-        chk.ob("evolve-exact-siblings", f"{qual}: offset cancels, total exponent = -i dt H", sp.simplify(total + sp.I * dt * H) == 0, fi.where, str(total), "-I*dt*H", line=line,
-               detail=f"{qual}: propagator exp(x(H+shift)) times the phase does not equal exp(-i dt H): the energy shift is not compensated (only visible for non-zero offsets)")
-        chk.ob("evolve-exact-siblings", f"{qual}: phase attached to the returned state", ret == [target], fi.where, {"phase on": target, "returned": ret}, "same object", line=line,
-               detail=f"{qual} multiplies the phase into `{target}` but returns {ret}: the result lacks the phase (and, if the target is self, the input is changed)")
-        want_app = "MPOprop.apply(self" if qual.startswith("Mps.") else "self.apply(MPOprop"
-        chk.ob("evolve-exact-siblings", f"{qual}: propagator applied from the documented side", len(app) == 1 and app[0].replace(" ", "").startswith(want_app), fi.where, app,
-               want_app + ", canonicalise=True)", line=line)
-    a1, a2 = red["Mps.evolve_exact"], red["MpDm.evolve_exact"]
-    same = sp.simplify(a1[0]["x"] - a2[0]["x"]) == 0 and sp.simplify(a1[0]["shift"] - a2[0]["shift"]) == 0 and sp.simplify(a1[2] - a2[2]) == 0
-    chk.ob("evolve-exact-siblings", "siblings agree (x, shift, phase)", same, f"{MPS}::Mps.evolve_exact", {"Mps": [str(a1[0]), str(a1[2])], "MpDm": [str(a2[0]), str(a2[2])]}, "identical")
+    evolve_exact_rule(chk, src, "evolve-exact-siblings")
+    H = sp.Symbol("H")
     # ---- exact_propagator: abstract run in a matrix-expression domain (chain_rules.exact_propagator_rule)
     from .chain_rules import exact_propagator_rule
     exact_propagator_rule(chk, src, "exact-propagator")
